@@ -31,6 +31,39 @@ def run(chk, tier):
         outputs.variant_maps(chk, F, 'R02.6', cfg)
 
 
+def _bsearch_payload(x, LIST):
+    """x = payload of Ok / Err of a binary search over LIST -> 'Ok' / 'Err'"""
+    x = strip(x)
+    if x[0] == 'field' and x[2] == '0' and strip(x[1])[0] == 'as' and is_call(strip(x[1])[1], r'<impl \[T\]>::binary_search_by(_key)?$'):
+        src = strip(strip(x[1])[1])[2][0]
+        if strip(src) in (LIST, ('ref', (('ptr', LIST), ()), False)) or field_path(src)[0] == LIST:
+            return strip(x[1])[2]
+    return None
+
+
+def _none_by_contract(F, p, LIST):
+    """a `None` outcome of the lookup that the reference lookup cannot turn into a response either:
+       (a) slice.get(i) == None with i = the Ok payload or the Err payload - 1 of a binary search over the same slice: unreachable
+           (std contract: Ok(i) => i < len, Err(q) => q <= len);
+       (b) q.checked_sub(1) == None for the Err payload q: no segment starts at or before k (in particular the empty list) -
+           the reference lookup has no element to return there (it fails the subtraction)."""
+    last = p.decisions[-1] if p.decisions else None
+    if last is None:
+        return None
+    v = strip(last.value)
+    if v[0] == 'discr' and is_call(v[1], r'<impl \[T\]>::get$') and last.branch == 0:
+        a = strip(v[1])[2]
+        src_ok = strip(a[0]) in (LIST, ('ref', (('ptr', LIST), ()), False)) or field_path(a[0])[0] == LIST
+        i = strip(a[1])
+        if src_ok and _bsearch_payload(i, LIST) == 'Ok':
+            return ('get', 'get(i) of a found index is in range (binary_search contract)')
+        if src_ok and i[0] == 'bin' and i[1] == 'Sub' and strip(i[3]) == ('c', 1) and _bsearch_payload(i[2], LIST) == 'Err':
+            return ('get', 'get(q - 1) of an insertion point q >= 1 is in range (binary_search contract)')
+    if v[0] == 'bin' and v[1] == 'Lt' and last.branch == 1 and strip(v[3]) == ('c', 1) and _bsearch_payload(v[2], LIST) == 'Err':
+        return ('before-first', 'insertion point 0: no segment starts at or before k')
+    return None
+
+
 def segment_lookup(chk, F, rule, cfg):
     fn = F.fn('call_pattern::find_responder_by_call_index')
     paths = symex.Interp(F).run(fn)
@@ -121,6 +154,10 @@ def segment_lookup(chk, F, rule, cfg):
             continue
         v = strip(p.outcome[1])
         if not (v[0] == 'agg' and v[3] == 'Some'):
+            why = _none_by_contract(F, p, LIST)
+            if why:
+                chk.ob(rule, 'a lookup that yields nothing does so only where the reference lookup cannot yield anything either', True, config=cfg, fn=fn, site='none:%s' % why[0], what=why[1])
+                continue
             chk.ob(rule, 'lookup over a non-empty list always yields a response', False, config=cfg, fn=fn, site='nonempty', what='non-Some result', found=show(v)[:200], unrecognised=True)
             continue
         r = strip(v[4][0][1])
